@@ -43,12 +43,32 @@ def int_domain(s):
     return all(ord(c) < 128 or not (c.isspace() or c.isdecimal() or c.isdigit() or c.isnumeric()) for c in s)
 
 
+def long_component_queries(ctx):
+    """C10's long-path families inside query strings: a component with seven valid escapes plus a
+    malformed / truncated / odd escape (1 hex digit, hex+space, '+' inside, non-hex, lone '%', '%%',
+    non-ASCII) at the end or in the middle, as a name and as a value, alone, repeated, and in a
+    comma list."""
+    shapes = ['%', '%%', '%1', '%a', '%g', '%1g', '%g1', '%+1', '%1+', '%a+', '% 1', '%1 ', '%4', '%41', '%4G', '%zz',
+              '%\xe9', '%1\xe9', '%e2%82', '%E2%82%AC', '%ff', '%c3%a9', '%2C', '%2c', '%26', '%3D', '%25', '%0', '%00']
+    if ctx.tier != 'quick':
+        shapes += ['%' + t for t in short_strings(['%', '+', '4', 'a', 'g', ' ', ','], 3)]
+    pre7, pre3, post4 = '%41' * 7, '%41' * 3, '%42' * 4
+    comps = []
+    for sh in shapes:
+        comps += [pre7 + sh, pre3 + sh + post4, sh + pre7, pre7 + sh + 'x']
+    out = []
+    for c in comps:
+        out += [c + '=v', 'k=' + c, 'k=' + c + ',' + c, 'k=1&k=' + c, c + '=' + c, 'a=1&' + c + '&b=' + c]
+    return out
+
+
 def random_queries(ctx, n):
     rng = ctx.rng
-    names = ['a', 'b', 'id', 'x%20y', 'caf%C3%A9', '', 'a+b', '%', 'q', 'G', '\xe9', 'a%3Db']
+    names = ['a', 'b', 'id', 'x%20y', 'caf%C3%A9', '', 'a+b', '%', 'q', 'G', '\xe9', 'a%3Db', '\u2660', 'k\u20ac']
     vals = ['1', '42', '-7', '+5', ' 8 ', 'true', 'false', 'yes', 'off', 'T', '', 'a,b', ',', ',,', '1,2,3', '%2C', 'x%2Cy,z',
             '%41', '%4', '%zz', '%', '+', 'caf%C3%A9', '%E2%82%AC', '%FF', '1_0', '0x1f', '1e3', '1.5', 'nan', 'a=b', '==',
-            '12345678901234567890123', '\x00', '%00', '4 1', 'on', 'n', '0', 'True', 'False', 'f', 't', 'y', 'no']
+            '12345678901234567890123', '\x00', '%00', '4 1', 'on', 'n', '0', 'True', 'False', 'f', 't', 'y', 'no',
+            '\u2660', '%41\u2660', '\u20ac,\xe9', 'caf\xe9', '\U0001F600+%F0%9F%98%80']
     out = []
     for _ in range(n):
         k = rng.choice([1, 2, 3, 5, 9, 40])
@@ -87,8 +107,12 @@ def main(ctx):
     ctx.cov['exhaustive_short'] = 'all %d strings of length <= %d over %r x 4 option settings' % (
         len(strings), maxlen, ''.join(ALPHABET))
     rnd = random_queries(ctx, 1000 if ctx.tier == 'quick' else 6000)
-    parse_part(ctx, uri, model, strings + rnd)
-    req_strings = list(short_strings(ALPHABET, 4)) + rnd
+    longc = long_component_queries(ctx)
+    ctx.cov['long_components'] = ('%d queries whose name or value has >= 8 percent tokens (decode()\'s '
+                                  '_join_tokens path) with every malformed-escape shape in the middle / at the end'
+                                  % len(longc))
+    parse_part(ctx, uri, model, strings + longc + rnd)
+    req_strings = list(short_strings(ALPHABET, 4)) + longc + rnd
     if ctx.tier != 'quick':
         req_strings += ctx.rng.sample(strings, 80000)
     request_part(ctx, model, req_strings)
@@ -200,50 +224,63 @@ def request_part(ctx, model, strings):
     # every option setting for the shortest strings, a seeded one for the rest
     plan = [(s, o) for s in strings if len(s) <= 2 for o in OPTS] + [(s, rng.choice(OPTS)) for s in strings if len(s) > 2]
     for s, (kb, csv) in plan:
-        asgi = rng.random() < 0.5
         req_flag = rng.random() < 0.3
         mn, mx = rng.choice([(None, None), (0, None), (None, 4), (1, 41), (5, 3)])
         bat = rng.random() < 0.7
-        jobs.append((s, kb, csv, asgi, req_flag, mn, mx, bat))
+        if s.isascii():
+            transports = [rng.choice(TRANSPORTS[:2])]
+        else:
+            # a literal non-ASCII character: every way the str reaches a Request
+            transports = TRANSPORTS
+        for tr in transports:
+            jobs.append((s, kb, csv, tr, req_flag, mn, mx, bat))
     reqs, cases = [], []
-    for (s, kb, csv, asgi, req_flag, mn, mx, bat) in jobs:
+    for (s, kb, csv, tr, req_flag, mn, mx, bat) in jobs:
         opts = falcon.RequestOptions()
         opts.keep_blank_qs_values = kb
         opts.auto_parse_qs_csv = csv
         try:
-            if asgi:
-                req = testing.create_asgi_req(query_string=s, options=opts)
-            else:
-                req = testing.create_req(query_string=s, options=opts)
+            req = make_request(testing, s, tr, opts)
         except Exception as e:  # noqa: BLE001
-            ctx.violation('request-raised', {'fn': 'Request', 'input': s, 'keep_blank': kb, 'csv': csv, 'asgi': asgi,
-                                             'impl': type(e).__name__, 'clause': 'parsing never fails'},
-                          key='request-raised')
+            ctx.violation('request-raised', {'fn': 'Request', 'query_string': s, 'keep_blank': kb, 'csv': csv,
+                                             'transport': tr, 'impl': type(e).__name__,
+                                             'clause': 'parsing never fails'}, key='request-raised')
             reqs.append(None)
             cases.append([0, '', kb, csv])
             continue
         reqs.append(req)
         names = list(req.params.keys())[:6] + ['zz', 'a']
-        cases.append([1, req.query_string, kb, csv, True, names, req_flag,
+        # the model / reference read the ORIGINAL str, whatever bytes or tunnelled str carried it
+        cases.append([1, s, kb, csv, True, names, req_flag,
                       [] if mn is None else [mn], [] if mx is None else [mx], bat])
     outs = model.run_many(cases)
+    # for the PEP 3333 transport: what a str-level reading of the tunnelled text gives (known finding)
+    tun_ref = {}
+    tun = sorted({(j[0], j[1], j[2]) for j in jobs if j[3] == 'wsgi-pep3333'})
+    for (s, kb, csv), o in zip(tun, model.run_many([[0, tunnel(s), kb, csv] for (s, kb, csv) in tun])):
+        tun_ref[(s, kb, csv)] = m_params(o[1])
     for job, req, case, o in zip(jobs, reqs, cases, outs):
         if req is None:
             continue
-        (s, kb, csv, asgi, req_flag, mn, mx, bat) = job
-        base = {'query_string': req.query_string, 'keep_blank': kb, 'csv': csv, 'asgi': asgi}
+        (s, kb, csv, tr, req_flag, mn, mx, bat) = job
+        base = {'query_string': s, 'keep_blank': kb, 'csv': csv, 'transport': tr, 'asgi': tr == 'asgi'}
         r = canon_params(req.params)
-        ctx.count('request-asgi' if asgi else 'request-wsgi')
-        ctx.note_case(('r', s, kb, csv, asgi), bool(r))
+        ctx.count('request-' + tr)
+        ctx.note_case(('r', s, kb, csv, tr), bool(r))
         if o[0] != 1:
             if corr is None:
                 corr = dict(base, what='model crashed', impl=r)
             continue
         refp = m_params(o[2])
         if r != refp:
-            ctx.violation('params-not-reference', dict(base, fn='req.params', impl=r, reference=refp,
-                                                       clause='mapping equals the form-urlencoded reference reading'),
-                          key='req-params-ref')
+            explained = None
+            if tr == 'wsgi-pep3333' and r == tun_ref.get((s, kb, csv)):
+                explained = 'wsgi-reads-tunnelled-utf8-as-latin1'
+            ctx.violation('params-not-reference',
+                          dict(base, fn='req.params', impl=r, reference=refp, explained_by=explained,
+                               clause='names and values are decoded as UTF-8: mapping equals the reference reading '
+                                      'of the query string'),
+                          key='req-params-ref-' + tr)
             continue
         if m_params(o[1]) != r and corr is None:
             corr = dict(base, fn='req.params', impl=r, model=m_params(o[1]))
@@ -253,6 +290,25 @@ def request_part(ctx, model, strings):
     if corr:
         ctx.violation('correspondence-broken', dict(corr, broken='C08.request_corr'),
                       found_input=bool(ctx.violations), key='req-corr')
+
+
+# how a query string (a str) reaches a Request object:
+#  'wsgi'          QUERY_STRING = the str itself (what falcon.testing.create_environ builds)
+#  'asgi'          scope['query_string'] = the str as UTF-8 bytes (ASGI spec)
+#  'wsgi-pep3333'  QUERY_STRING = the UTF-8 bytes decoded as latin-1 (what a PEP 3333 server hands over)
+TRANSPORTS = ['wsgi', 'asgi', 'wsgi-pep3333']
+
+
+def tunnel(s):
+    return s.encode('utf-8').decode('latin-1')
+
+
+def make_request(testing, s, transport, opts):
+    if transport == 'asgi':
+        return testing.create_asgi_req(query_string=s, options=opts)
+    if transport == 'wsgi-pep3333':
+        return testing.create_req(query_string=tunnel(s), options=opts)
+    return testing.create_req(query_string=s, options=opts)
 
 
 def check_getters(ctx, falcon, req, base, name, required, mn, mx, bat, mg, sg):
@@ -414,22 +470,32 @@ def replay(ctx, obj):
         main(ctx)
     elif 'query_string' in obj:
         s, kb, csv = obj['query_string'], obj['keep_blank'], obj['csv']
-        for asgi in ([obj['asgi']] if 'asgi' in obj else [False, True]):
+        if 'transport' in obj:
+            trs = [obj['transport']]
+        elif 'asgi' in obj:
+            trs = ['asgi' if obj['asgi'] else 'wsgi']
+        else:
+            trs = TRANSPORTS[:2]
+        for tr in trs:
             opts = falcon.RequestOptions()
             opts.keep_blank_qs_values = kb
             opts.auto_parse_qs_csv = csv
-            req = (testing.create_asgi_req if asgi else testing.create_req)(query_string=s, options=opts)
+            req = make_request(testing, s, tr, opts)
             names = [obj['name']] if 'name' in obj else list(req.params.keys()) + ['zz']
             mn, mx = obj.get('min_value'), obj.get('max_value')
             required = bool(obj.get('required'))
             bat = obj.get('blank_as_true', True)
-            o = model.run([1, req.query_string, kb, csv, True, names, required, [] if mn is None else [mn],
+            o = model.run([1, s, kb, csv, True, names, required, [] if mn is None else [mn],
                            [] if mx is None else [mx], bat])
-            base = {'query_string': req.query_string, 'keep_blank': kb, 'csv': csv, 'asgi': asgi}
+            base = {'query_string': s, 'keep_blank': kb, 'csv': csv, 'transport': tr, 'asgi': tr == 'asgi'}
             r = canon_params(req.params)
             ctx.sample({'replayed': base, 'params': r})
             if r != m_params(o[2]):
-                ctx.violation('params-not-reference', dict(base, fn='req.params', impl=r, reference=m_params(o[2])))
+                explained = None
+                if tr == 'wsgi-pep3333' and r == m_params(model.run([0, tunnel(s), kb, csv])[1]):
+                    explained = 'wsgi-reads-tunnelled-utf8-as-latin1'
+                ctx.violation('params-not-reference', dict(base, fn='req.params', impl=r, reference=m_params(o[2]),
+                                                           explained_by=explained))
                 continue
             for name, (mg, sg) in zip(names, o[3]):
                 check_getters(ctx, falcon, req, base, name, required, mn, mx, bat, mg, sg)
